@@ -59,12 +59,13 @@ CONFIG = {
         "float64 arithmetic of ExponentialBackoff (math.Pow, products, float64->int64 conversion) is modelled with exact rationals; out-of-range conversions are an arbitrary function parameter (oob) of the theorems, the random source rand.Int64N an arbitrary function (rnd); the correspondence accepts observed pauses within a 1e-9 relative rounding allowance and leaves points within that allowance of a decision boundary unjudged",
         "strconv.ParseInt(s, 10, 64) is hand-modelled (parse_int64: sign, decimal digits, saturation on range errors, 0 on syntax errors) and compared with the implementation on a pool of Retry-After values",
         "net/http: http.Client.Do passes the request to the RoundTripper unchanged for the status codes used (no 3xx), Request.Clone shares Body and GetBody, NewRequest installs GetBody for *bytes.Reader; url.Error unwrapping; context.DeadlineExceeded is a net.Error with Timeout()=true",
-        "the auth client is modelled for a fresh client only (empty token cache): first send, on 401 with Basic/Bearer challenge rewind and one re-send; token fetches (Bearer) are served at once by the scripted transport and are not part of the trace; the credential/caching logic is C16's",
+        "the auth client is modelled as far as re-sending goes: first send; on 401 with a Basic/Bearer challenge rewind and re-send (empty token cache), or re-send with the cached token and, if refused, once more with a fresh token (warm Bearer cache); token fetches are served at once by the scripted transport and are not part of the trace; credential, scope and cache logic is C16's",
+        "a float64 below -2^63 does not convert to a positive int64 (true on amd64/arm64); hypothesis of the acceptor-completeness theorem only",
         "timing: the scripted base transport reads the body at once and then waits its latency on the fake clock of testing/synctest; the context never ends at the same instant as a timer (cancel instants odd, all other instants even), so the select in Transport.RoundTrip is deterministic in every generated case",
         "manifestStore.push buffering is modelled as 'a one-shot body becomes replayable iff the client is *auth.Client' and exercised with a non-indexed manifest media type; the digest/size verification of cas.Memory is C05's",
     ],
     "level_text": "Coq theorems for every script of server behaviours, body kind/size, policy parameter set, attempt number and cancellation instant: each send makes between 1 and MaxRetry+1 attempts; every pause GenericPolicy.Retry computes and every pause the transport makes lies in [MinWait, MaxWait] (Retry-After on 429 honoured within them); a non-retryable answer is returned after exactly one attempt; on every attempt of the retry transport and of the auth client's re-send the registry receives exactly the prefix it reads of the complete original body (the whole body when it reads to the end); a body without a working GetBody is sent once and the call ends with that answer (transport) or the rewind error (auth client); no attempt starts after the context ended and a context ending during a pause ends the call with the context's error at that instant; ExponentialBackoff is total on the current source (refuted with a witness for the original source, defect F7, fixed). The model is tied to the code by regenerated constants (DefaultPolicy numbers, DefaultPredicate status branch, jitter guard), by a correspondence run of real retry.Transport / auth.Client / Repository manifest push over a scripted transport under synctest's fake clock (exact attempt instants, per-attempt received bytes), and by an independent oracle.",
-    "level_note": "float64 arithmetic and the random jitter of ExponentialBackoff are modelled with exact rationals and an acceptor with rounding allowance; auth client modelled for an empty token cache only; net/http client plumbing, strconv.ParseInt and synctest are trusted/hand-modelled (see assumptions)",
+    "level_note": "float64 arithmetic and the random jitter of ExponentialBackoff are modelled with exact rationals and an acceptor with rounding allowance; auth client modelled only as far as re-sending goes (cold cache, warm Bearer cache); net/http client plumbing, strconv.ParseInt and synctest are trusted/hand-modelled (see assumptions)",
     "technique": "machine-checked proof in Coq (loop invariants over the retry loop as a transition function; universal statements over policies, scripts, bodies, cancellation instants) + translator-regenerated constants/decision branch + model/implementation correspondence under testing/synctest fake time + independent oracle",
     "explanation": "theorems about Model/Retry.v (GenericPolicy.Retry, DefaultPredicate, ExponentialBackoff, Transport.RoundTrip loop, auth.Client.Do re-send, manifest push buffering); harness: exhaustive behaviour sequences (length <= 3 quick / 5 thorough) x body kinds x both stacks, every odd cancellation instant of small scripts, random scripts with partial body reads, latencies, Retry-After values, GetBody failures, bodies up to 1 MiB (oracle only), manifest pushes with one-shot readers, and a sweep of policy decision points (attempt 0..80, backoff, factor, jitter incl. 0/negative/tiny, bounds incl. extreme, Retry-After incl. huge/garbage); oracle clauses: body-truncated, too-many-attempts, pause-bounds, nonretryable-retried, oneshot-resent, cancel-ignored/late/result, wrong-result, backoff-panic, maxretry-ignored, retry-after",
 }
